@@ -199,6 +199,7 @@ pub fn evaluate(spec: &Spec, completed: bool) -> Vec<Violation> {
             "c04_capacity" => control::c04_capacity(&mut cx),
             "c12_params" => data::c12_params(&mut cx),
             "c08_cache" => cache::c08_cache(&mut cx),
+            "c16_pause" => control::c16_pause(&mut cx),
             other => {
                 cx.v("HARNESS", "unknown_oracle", other, 0, format!("unknown oracle {}", other));
             }
